@@ -47,10 +47,32 @@ def as_weights(b):
     return sp[3] if len(sp) > 3 else True
 
 
-def replay(case, res, checks):
-    """Runs the episode and the oracle. `checks` ⊆ {"ledger", "reward", "fifo", "pricing", "frames"}.
-    Returns a dict of statistics for the non-trivial rule."""
+def replay(case, res, checks, episodes=1):
+    """Runs `episodes` consecutive episodes on ONE environment (the later ones with the action list reversed) and the
+    oracle on each. `checks` ⊆ {"ledger", "reward", "fifo", "pricing", "frames", "target"}.
+    Returns a dict of statistics for the non-trivial rule (accumulated over the episodes)."""
     b = E.build(case)
+    total = None
+    for ep in range(episodes):
+        actions = case["actions"] if ep % 2 == 0 else case["actions"][::-1]
+        stats = _replay_episode(case, b, res, checks, actions)
+        if total is None:
+            total = stats
+        else:
+            for k, v in stats.items():
+                if isinstance(v, bool):
+                    total[k] = total[k] or v
+                elif isinstance(v, (int, float)) and k not in ("delay", "final_nlv"):
+                    total[k] += v
+        if res.violations:
+            if ep > 0:
+                res.violations[0] = "episode %d on the same environment: %s" % (ep + 1, res.violations[0])
+            break
+    total["episodes"] = episodes
+    return total
+
+
+def _replay_episode(case, b, res, checks, actions):
     tm = E.Timing(b)
     env = b.env
     n = b.n
@@ -60,7 +82,6 @@ def replay(case, res, checks):
              "latent_quote_changed_price": 0, "boundary_quote": 0, "interest_nonzero": 0, "delay": case.get("delay", 0),
              "steps": 0}
     delay = case.get("delay", 0)
-    actions = case["actions"]
     env.reset()
     if len(tm.steps) < 2:
         return stats
